@@ -46,17 +46,16 @@ fn semantic(o: &Outcome) -> Semantic {
                 )
             })
             .collect(),
-        // An appointment counts as answered when the tower tracks it, or when it still watches it
-        // while its penalty sits confirmed on the active chain (the node answered "already in
-        // chain": both outcomes are admissible, see DESIGN.md section 7).
+        // An appointment counts as answered when the tower tracks it. (Until fix 3eaadf0 of handle_breach
+        // "still watched while its penalty sits confirmed on the active chain" was admitted as well; it
+        // is not what an uninterrupted run produces and the next re-submission of the appointment drops it.)
         trackers: db
             .appointments
             .keys()
             .filter_map(|k| match (db.trackers.get(k), o.penalty_on_chain.get(k).copied().flatten()) {
                 (Some(t), Some(h)) => Some((k.clone(), (tx_label(&t.dispute), tx_label(&t.penalty), true, h))),
                 (Some(t), None) => Some((k.clone(), (tx_label(&t.dispute), tx_label(&t.penalty), false, 0))),
-                (None, Some(h)) => Some((k.clone(), ("-".to_owned(), "-".to_owned(), true, h))),
-                (None, None) => None,
+                (None, _) => None,
             })
             .map(|(k, (_, _, c, h))| (k, ("answered".to_owned(), String::new(), c, h)))
             .collect(),
